@@ -750,6 +750,8 @@ def applicable_kinds(op, p=None):
     kinds = ["crash", "enospc"]
     if p is not None and p.get("pair"):
         kinds.append("sibling")
+    if p is not None and p["kind"] in ("render", "render_real", "mwzip_main"):
+        kinds.append("sigterm")  # the commands' main functions: they may have installed a handler
     if name in ("write", "os.write", "sendfile", "copy_file_range"):
         kinds.append("eio_short")
     if name in ("write", "os.write"):
@@ -808,7 +810,11 @@ def explore_scenario(p, root, stats, only=None):
             f = Fault(kind, k)
             code, rep = run_point(sc, f)
             stats["points"] += 1
-            if kind == "crash":
+            if kind == "sigterm" and code in (143, -15) and (rep is None or not rep["info"].get("raised")):
+                Stats.merge(stats["faults"], {"sigterm": 1})  # default action: the process is simply gone
+            elif kind == "sigterm" and rep is not None and rep.get("fired"):
+                Stats.merge(stats["faults"], {"sigterm-handled-by-the-producer": 1})
+            elif kind == "crash":
                 if code in (137, -9):
                     Stats.merge(stats["faults"], {"crash": 1})
                 elif rep is not None and rep.get("fired"):
